@@ -842,3 +842,40 @@ func (m *Model) namedType(pkg, name string) *types.Named {
 	nt, _ := tn.Type().(*types.Named)
 	return nt
 }
+
+// parserNewError: the parser's error recorder — by name, or (if the method moved to an embedded helper type) the
+// parser-package function that appends a *fail.Error to an error list field.
+func (m *Model) parserNewError() *ssa.Function {
+	if fn := m.Method("parser", "Parser", "newError"); fn != nil {
+		return fn
+	}
+	var found *ssa.Function
+	n := 0
+	for _, fn := range m.ModFns {
+		if fn.Blocks == nil || shortPkg(fnPkgPath(fn)) != "parser" || fn.Signature.Recv() == nil || fn.Signature.Results().Len() != 0 {
+			continue
+		}
+		appends := false
+		for _, b := range fn.Blocks {
+			for _, in := range b.Instrs {
+				if st, ok := in.(*ssa.Store); ok {
+					if fa, isFA := st.Addr.(*ssa.FieldAddr); isFA && strings.Contains(types.TypeString(fa.Type(), nil), "[]*"+modPath+"/fail.Error") {
+						if c, isC := st.Val.(*ssa.Call); isC {
+							if bi, isB := c.Call.Value.(*ssa.Builtin); isB && bi.Name() == "append" {
+								appends = true
+							}
+						}
+					}
+				}
+			}
+		}
+		if appends {
+			found = fn
+			n++
+		}
+	}
+	if n == 1 {
+		return found
+	}
+	return nil
+}
